@@ -288,6 +288,73 @@ def shared_shard(st, shard, nshards, payload):
                 st.sample({'logic': logic, 'f': f, 'g': g, 'share': 'a'}, cls='shared-' + logic)
 
 
+def check_provenance(inp):
+    """Equality does not depend on where an equal formula object CAME FROM: a pickle round trip (saved to
+    disk, sent to a worker process), copy.deepcopy, copy.copy, clone() and a second construction all
+    give objects equal to the original, with equal hashes, one key in sets and dicts - and different
+    from a formula that differs in one atom."""
+    import copy
+    import pickle
+    logic = inp['logic']
+    L = fm.lang(logic)
+    t = fm.from_json(inp['f'])
+    other = fm.rename_atoms(t, dict((a, a + '_') for a in fm.atoms(t))) if fm.atoms(t) else ('not', t)
+    try:
+        a = fm.to_lib(t, L, raw_leaves=inp.get('raw', False))
+        b = fm.to_lib(other, L) if fm.kind(logic, other) else None
+        twins = {'a second construction': fm.to_lib(t, L), 'clone()': a.clone(), 'copy.deepcopy': copy.deepcopy(a),
+                 'copy.copy': copy.copy(a)}
+        for proto in (0, 2, pickle.HIGHEST_PROTOCOL):
+            twins['pickle round trip (protocol %d)' % proto] = pickle.loads(pickle.dumps(a, proto))
+        twins['pickle of a pickle'] = pickle.loads(pickle.dumps(twins['pickle round trip (protocol 2)']))
+        for what, x in sorted(twins.items()):
+            if fm.structure(x) != t:
+                return Failure('provenance', inp, list(t), list(fm.structure(x)), '%s has another tree' % what)
+            if not (x == a) or not (a == x) or (x != a) or (a != x):
+                return Failure('provenance', inp, 'equal to the original', 'a == x: %s, x == a: %s, a != x: %s' % (a == x, x == a, a != x), what)
+            if hash(x) != hash(a):
+                return Failure('provenance', inp, 'equal hashes', '%d vs %d' % (hash(a), hash(x)), what)
+            if len(set([a, x])) != 1 or {a: 1}.get(x) != 1 or x not in [a]:
+                return Failure('provenance', inp, 'one key in sets and dicts', 'two keys / lookup misses', what)
+            if b is not None and ((x == b) or (b == x) or not (x != b)):
+                return Failure('provenance', inp, 'different from a formula with other atoms', 'reported equal', what)
+        for w1, x in sorted(twins.items()):
+            for w2, y in sorted(twins.items()):
+                if not (x == y) or hash(x) != hash(y):
+                    return Failure('provenance', inp, 'all copies equal to each other', '%s != %s' % (w1, w2))
+        if fm.structure(a) != t:
+            return Failure('provenance', inp, 'original unchanged', 'changed')
+    except core.HarnessError:
+        raise
+    except Exception as e:
+        return Failure('provenance', inp, 'no exception', 'raised %s: %s' % (type(e).__name__, str(e)[:200]))
+    return None
+
+
+CHECKS['provenance'] = check_provenance
+
+
+def provenance_shard(st, shard, nshards, payload):
+    i = -1
+    for logic in LOGICS:
+        for atoms in (('p', 'q'), ('alpha', 'x_1'), ('a', 'B')):
+            forms = scope_formulas(logic, 2, atoms)[::payload['stride']] + deep_scope(logic, atoms, 211)
+            for t in forms:
+                i += 1
+                if i % nshards != shard:
+                    continue
+                st.evaluations += 1
+                st.nontrivial += 1
+                st.bump('provenance: pickle / deepcopy / copy / clone / rebuilt')
+                if i % 1999 == 0:
+                    st.sample({'logic': logic, 'f': t}, cls='provenance-' + logic)
+                r = check_provenance({'logic': logic, 'f': t, 'raw': bool(i % 2)})
+                if r is not None:
+                    if st.failure is None:
+                        st.failure = r
+                    return
+
+
 def check_deep(inp):
     """Formulas nested k deep that differ only in the INNERMOST leaf (or in their length by one): ==, !=,
     hash, set membership and clone() must see the difference, and an independently built copy must be
@@ -499,6 +566,13 @@ def run(ctx):
     ks = ctx.pick([6, 17, 40, 90, 140], [4, 6, 9, 13, 17, 25, 40, 60, 90, 120, 140, 200, 280])
     ctx.scopes.append('nesting: 11 chain/fold/wide shapes per logic at nesting %s: a copy, a variation of the innermost leaf, one level less' % ks)
     f = core.run_sharded(ctx, deep_shard, {'ks': ks})
+    if f is not None:
+        ctx.violation(f)
+        return
+
+    ctx.scopes.append('provenance: every %sformula with <= 2 operators over 3 atom pairs per logic (+ a stride of 3 operators): pickle round trips (3 protocols), '
+                      'deepcopy, copy, clone and a second construction against the original' % ('13th ' if not ctx.thorough else ''))
+    f = core.run_sharded(ctx, provenance_shard, {'stride': ctx.pick(13, 1)})
     if f is not None:
         ctx.violation(f)
         return
